@@ -48,6 +48,16 @@ Theorem c10_cancel_exact : forall E, key_inj E -> forall ops c,
 Proof. exact code_cancel_exact. Qed.
 Print Assumptions c10_cancel_exact.
 
+(** Lookup and delivery are ONE step in the code as it is (server.rs:856-880 [Server::cancel]: one
+    [TcpStream::connect]; on error the request is dropped — [CancelRefused] changes nothing): no
+    request is ever waiting to be delivered later, so the only packets that ever reach a backend
+    are those of [c10_cancel_targets_holder], sent while the owner borrows the session. *)
+Theorem c10_no_late_delivery : forall E ops,
+  pending (run E code_variant ops) = [] /\ late_out (run E code_variant ops) = Silent /\
+  (forall st k, step E code_variant st (CancelRefused k) = st).
+Proof. exact code_no_late_delivery. Qed.
+Print Assumptions c10_no_late_delivery.
+
 (* ================================================================ every order / variant *)
 
 (** What is sent to the server is a server connection's own key ... *)
@@ -171,31 +181,50 @@ Print Assumptions c10_holder_survives_reloads.
 (** F13, the exit window: with the order "connection back to the pool, then entry removed"
     another client borrows the connection and a CancelRequest with the FIRST client's key is
     forwarded to it. *)
-Theorem c10_exit_window_refuted : forall cd rp,
+Theorem c10_exit_window_refuted : forall cd rp cr,
   exists ops c1 c2 s, c1 <> c2 /\ key ex_env c1 <> key ex_env c2 /\
-    sv (run ex_env (mkVariant cd false rp) ops) s = HeldBy c2 /\
-    cphase (cl (run ex_env (mkVariant cd false rp) ops) c1) = Exiting /\
-    cancel_out (run ex_env (mkVariant cd false rp) ops) (key ex_env c1) = Contact (tgt ex_env s).
+    sv (run ex_env (mkVariant cd false rp cr) ops) s = HeldBy c2 /\
+    cphase (cl (run ex_env (mkVariant cd false rp cr) ops) c1) = Exiting /\
+    cancel_out (run ex_env (mkVariant cd false rp cr) ops) (key ex_env c1) = Contact (tgt ex_env s).
 Proof. exact exit_window_refuted. Qed.
 Print Assumptions c10_exit_window_refuted.
 
 (** F28, cancel once: when the drop of the value that served a CancelRequest removes the key it
     carried, a second CancelRequest during the same checkout is silently ignored. *)
-Theorem c10_cancel_once_refuted : forall ef rp,
-  exists ops c s, sv (run ex_env (mkVariant true ef rp) ops) s = HeldBy c /\
-    outcomes ex_env (mkVariant true ef rp) ops = [Contact (tgt ex_env s)] /\
-    cancel_out (run ex_env (mkVariant true ef rp) ops) (key ex_env c) = Silent.
+Theorem c10_cancel_once_refuted : forall ef rp cr,
+  exists ops c s, sv (run ex_env (mkVariant true ef rp cr) ops) s = HeldBy c /\
+    outcomes ex_env (mkVariant true ef rp cr) ops = [Contact (tgt ex_env s)] /\
+    cancel_out (run ex_env (mkVariant true ef rp cr) ops) (key ex_env c) = Silent.
 Proof. exact cancel_once_refuted. Qed.
 Print Assumptions c10_cancel_once_refuted.
 
 (** Reload pruning (not in the code; the mutant the check must notice): if a configuration
     reload dropped the entries that point to an address which left the configuration, a client
     still running a statement on the old pool's connection could no longer cancel it. *)
-Theorem c10_reload_prune_refuted : forall cd ef,
-  exists ops c s, sv (run ex_env (mkVariant cd ef true) ops) s = HeldBy c /\
-    cancel_out (run ex_env (mkVariant cd ef true) ops) (key ex_env c) = Silent.
+Theorem c10_reload_prune_refuted : forall cd ef cr,
+  exists ops c s, sv (run ex_env (mkVariant cd ef true cr) ops) s = HeldBy c /\
+    cancel_out (run ex_env (mkVariant cd ef true cr) ops) (key ex_env c) = Silent.
 Proof. exact reload_prune_refuted. Qed.
 Print Assumptions c10_reload_prune_refuted.
+
+(** Late delivery (not in the code; the mutant the check must notice): if a request whose
+    connection was refused were retried with the target copied at lookup time, it would reach the
+    session after it changed hands — c1 holds nothing any more, its key is dead in the map, and
+    the packet arrives at the session now borrowed by c2. *)
+Theorem c10_late_delivery_refuted : forall cd ef rp,
+  exists ops c1 c2 s, c1 <> c2 /\ key ex_env c1 <> key ex_env c2 /\
+    held (cl (run ex_env (mkVariant cd ef rp true) ops) c1) = None /\
+    cancel_out (run ex_env (mkVariant cd ef rp true) ops) (key ex_env c1) = Silent /\
+    sv (run ex_env (mkVariant cd ef rp true) ops) s = HeldBy c2 /\
+    late_out (run ex_env (mkVariant cd ef rp true) ops) = Contact (tgt ex_env s).
+Proof. exact late_delivery_refuted. Qed.
+Print Assumptions c10_late_delivery_refuted.
+
+(** For every variant that does not retry: nothing is ever pending. *)
+Theorem c10_single_attempt_no_pending : forall E v, cancel_retries v = false -> forall ops,
+  pending (run E v ops) = [] /\ late_out (run E v ops) = Silent.
+Proof. intros E v CR ops. split; [exact (no_pending E v CR ops)|exact (no_late_delivery E v CR ops)]. Qed.
+Print Assumptions c10_single_attempt_no_pending.
 
 (* ================================================================ spec validation *)
 
@@ -251,8 +280,16 @@ Proof. vm_compute. reflexivity. Qed.
 Example ex_reload_idle_retired :
   sv (run ex_env code_variant [Checkout 0 0; ReleaseNormal 0 true; Reload [0; 1]; Checkout 1 0]) 0 = Closed.
 Proof. vm_compute. reflexivity. Qed.
-Example ex_reload_mutant : outcomes ex_env (mkVariant false true true)
+Example ex_reload_mutant : outcomes ex_env (mkVariant false true true false)
   [Checkout 0 0; Cancel k0; Reload [0]; Cancel k0] = [Contact t0; Silent].
+Proof. vm_compute. reflexivity. Qed.
+
+(** the connection of a CancelRequest is refused, the server changes hands, the listener is back *)
+Example ex_refused_code : outcomes ex_env code_variant
+  (late_ops ++ [DeliverLate; Cancel k0; Cancel k1]) = [Silent; Silent; Silent; Contact t0].
+Proof. vm_compute. reflexivity. Qed.
+Example ex_refused_mutant : outcomes ex_env (mkVariant false true false true)
+  (late_ops ++ [DeliverLate; Cancel k0; Cancel k1]) = [Silent; Contact t0; Silent; Contact t0].
 Proof. vm_compute. reflexivity. Qed.
 
 (** the guards separate exactly these schedules *)
